@@ -150,6 +150,7 @@ class Call:
             self.self_ty = c.get("self")
             self.res = strip_generics(c["res"]) if c.get("res") else None
             self.gargs = c.get("gargs")
+            self.unsafe = c.get("unsafe", False)
         else:
             self.path = None
             self.name = None
@@ -157,6 +158,7 @@ class Call:
             self.self_ty = None
             self.res = None
             self.gargs = None
+            self.unsafe = False
 
     def is_(self, *pats):
         """Match callee by suffix of normalised path (or resolved path) on '::' boundary."""
